@@ -17,7 +17,7 @@ RULE = ('cases = q = x/y, scalar/y and elementwise_divide(x,y,eps,...) for TT te
 ASSUMPTIONS = ['"within the solver tolerance" is fixed a priori as 100*tol (the AMEn residual is controlled per local problem; the constant absorbs sqrt(d) and the damping factor)',
                'divisor entries are certified in [1,2] by the harness; nothing is claimed for divisors with entries near zero']
 REQUIRED_REACH = ['_division:amen_divide', '_tt_base:TT.__truediv__', '_tt_base:TT.__rtruediv__', '_extras:elementwise_divide']
-REQUIRED_COUNTS = {'form:x/y': 1, 'form:s/y': 1, 'form:elementwise_divide': 1, 'form:x/scalar': 1, 'opt:preconditioner-c': 1, 'opt:starting_tensor': 1, 'executions': 100}
+REQUIRED_COUNTS = {'form:x/y': 1, 'form:s/y': 1, 'form:elementwise_divide': 1, 'form:x/scalar': 1, 'opt:preconditioner-c': 1, 'opt:starting_tensor': 1, 'opt:starting_tensor(near-solution)': 5, 'executions': 100}
 LINE_FUNCS = ['amen_divide', 'TT.__truediv__', 'TT.__rtruediv__']
 CASE_TIMEOUT = {'quick': 300, 'thorough': 600}
 MAX_TIMEOUT_FRACTION = 0.0
@@ -51,6 +51,13 @@ def cases(tier, seed):
         cs.append({'gen': 'div', 'form': ['elementwise_divide', 'elementwise_divide', 'x/y'][i % 3], 'N': [[10, 10, 10, 10], [10, 9, 10, 10], [10, 10, 10, 9]][i % 3], 'Rx': [1, 2, 2, 2, 1],
                    'Rz': [1, 3, 3, 3, 1], 'eps': [1e-12, 1e-11][(i // 3) % 2], 'prec': 'c' if i % 6 == 4 else None, 'start': False, 'scalar': 2.0, 'vseed': 5151 + i, 'sidx': 0,
                    'nswp': [None, 40, None][i % 3], 'zrange': 3.0})
+    # starting tensors that are GOOD BUT NOT GOOD ENOUGH: the exact quotient truncated at an accuracy between eps and sqrt(eps)
+    for i in range(18 if not T else 150):
+        d = rng.choice([2, 3, 4])
+        N = [rng.randint(2, 6) for _ in range(d)]
+        ga = [1e-4, 1e-6, 1e-7][i % 3]
+        cs.append({'gen': 'div', 'form': 'elementwise_divide', 'N': N, 'Rx': gens.rank_profile(rng, d, 'rand', 3), 'Rz': gens.rank_profile(rng, d, 'rand', 2), 'eps': ga * ga * rng.choice((3.0, 30.0)),
+                   'prec': 'c' if i % 4 == 1 else None, 'start': True, 'start_near': ga, 'scalar': 1.0, 'vseed': rng.randrange(2 ** 40), 'sidx': 0})
     # degenerate but legitimate inputs: zero numerator (0/y, 0.0/y, zeros/y) and an all-zero starting tensor
     for i in range(12 if not T else 120):
         d = rng.choice([2, 3, 4])
@@ -135,6 +142,15 @@ def run_div(case, ctx, g):
         if case['start']:
             rr = random.Random(case['vseed'] + 3)
             start = gens.make_tt(N, [1] + [rr.randint(1, 3) for _ in N[1:]] + [1], dt, 'zero' if case.get('zero_start') else 'gauss', g)
+            if case.get('start_near'):
+                # dense quotient + a relative perturbation of the stated size, written as a TT by the library constructor (decided by C01)
+                qd = dn.D(x) / dy
+                pert = gens.values(N, dt, 'gauss', g)
+                qd = qd + case['start_near'] * dn.fro(qd) / max(dn.fro(pert), 1e-300) * pert
+                st = ctx.lib('TT(dense)', lambda t: torchtt.TT(t, eps=1e-14), qd)
+                if isinstance(st, torchtt.TT):
+                    start = st
+                    ctx.count('opt:starting_tensor(near-solution)')
             kw['starting_tensor'] = start
             ctx.count('opt:starting_tensor')
             q = ctx.lib('elementwise_divide(start)', lambda a, b, c: torchtt.elementwise_divide(a, b, **dict(kw, starting_tensor=c)), x, y, start)
